@@ -96,11 +96,12 @@ def run(tier):
     def pool(): return GC.gen_pool(rng, locals_=rng.random() < 0.2)
     gens = {
         "version": (Version.parse, TOK_V, lambda: GV.gen_version(rng)[0]),
-        "constraint": (parse_constraint.__wrapped__, TOK_C, lambda: GC.gen_constraint(rng, pool())),
+        "constraint": (parse_constraint.__wrapped__, TOK_C, lambda: GC.gen_constraint(rng, pool(), wild_suffix=True)),
         "generic": (gparse.__wrapped__, TOK_G, lambda: rng.choice(["==linux", "!=win32, !=darwin", "linux || darwin", "'a' in", "'x y' not in"])),
         "extra": (xparse.__wrapped__, TOK_G, lambda: rng.choice(["==a", "!=a, !=b", "a || b"])),
         "marker": (parse_marker.__wrapped__, TOK_M, lambda: MI.gen_marker(rng, depth=2, leaves=rng.randint(1, 3))[0]),
         "marker_same_variable": (parse_marker.__wrapped__, TOK_M, lambda: MI.gen_same_var_marker(rng)),
+        "marker_platform_release": (parse_marker.__wrapped__, TOK_M, lambda: MI.gen_release_mixed_marker(rng)),
         "requirement_same_variable": (Requirement, TOK_R, lambda: "foo>=1; " + MI.gen_same_var_marker(rng)),
         "requirement": (Requirement, TOK_R, lambda: rng.choice(["requests>=2.0", "Foo_Bar[extra1]>=1.0,<2; python_version >= \"3.8\"", "x @ https://example.com/a-1.0.tar.gz", "y @ git+https://github.com/x/y.git@main#subdirectory=sub"])),
         "dependency": (Dependency.create_from_pep_508, TOK_R, lambda: rng.choice(["requests (>=2.0)", "foo[a,b]==1.*; extra == 'a'", "x @ git+ssh://git@github.com/x/y.git@v1", "./local", "z @ file:///tmp/z-1.0.tar.gz"])),
@@ -108,13 +109,13 @@ def run(tier):
     mreq, midx = [], []
     for kind, (f, toks, valid) in gens.items():
         for _ in range(n // len(gens)):
-            s = valid() if kind.endswith("_same_variable") and rng.random() < 0.8 else fuzz(rng, toks, valid)
+            s = valid() if (kind.endswith("_same_variable") or kind == "marker_platform_release") and rng.random() < 0.8 else fuzz(rng, toks, valid)
             o = outcome(f, s)
             R.case(dict(parser=kind, input=s[:300]), nontrivial=True); R.count(f"{kind}_{o[0]}" + ("_" + o[1] if o[0] == "err" else ""))
             case = dict(parser=kind, input=s)
             if o[0] == "hang": R.fail(case, "no answer within 5 s"); continue
             if o[0] == "err":
-                documented = o[2] or (kind.startswith("marker") and o[1] in ("UnexpectedCharacters", "UnexpectedToken", "UnexpectedEOF", "UnexpectedInput"))
+                documented = (len(o) > 2 and o[2]) or (kind.startswith("marker") and o[1] in ("UnexpectedCharacters", "UnexpectedToken", "UnexpectedEOF", "UnexpectedInput"))
                 if o[1] in ("OSError", "FileNotFoundError", "PermissionError", "NotADirectoryError"):
                     R.count("os_errors_not_judged"); documented = True      # filesystem answers (path dependencies), not parser crashes
                 if o[1] in [e.__name__ for e in BAD] or not documented:
